@@ -81,7 +81,8 @@ Print Assumptions c04_part_numbers_consecutive.
 
 (* all streams of one muxer expose the same media sequence numbers and durations (sequential part: between
    any two writes): same segment counter, same number of evicted segments (= EXT-X-MEDIA-SEQUENCE), same
-   gap flags / ids / start and end times of the listed segments, same id and start of the open segment *)
+   gap flags / ids / start and end times / wall clocks of the listed segments, same id, start and wall clock
+   of the open segment (MuxAgree.shape) *)
 Theorem c04_streams_agree_between_writes : forall c m0 ops s1 s2,
   start c = Ok m0 -> In s1 (m_streams (mux_run m0 ops)) -> In s2 (m_streams (mux_run m0 ops)) ->
   shape s1 = shape s2.
